@@ -26,6 +26,23 @@ def ex_ups(repo):
     return common.status_code(repo) + common.peer_state_types(repo) + [pe.method(r'^impl Peers \{', 'update_prove_state', wrap='impl Peers')]
 
 
+def ex_rollback(repo):
+    st = Source(repo, STORAGE)
+    ex = st.item(r'^pub fn extract_raw_data'); ex.sub(r'\.concat\(\)', '.mconcat()')
+    rb = st.item(r'^    pub fn rollback_to_block'); rb.prefix = 'impl Storage {\n'
+    rb.sub(r'\.to_be_bytes\(\)\.to_vec\(\)', '.to_be_bytes()', required=False)
+    gt = st.item(r'^    fn get_transaction\('); gt.suffix = '\n}'
+    return [st.consts(r'^const FILTER_SCRIPTS_KEY: &str = [^;]*;')[0], st.consts(r'^const MIN_FILTERED_BLOCK_NUMBER: &str = [^;]*;')[0],
+            st.item(r'^pub enum CellType'), st.item(r'^pub enum Key<'), st.item(r'^pub enum KeyPrefix', attrs=True), st.item(r"^impl<'a> Key<'a>"),
+            st.item(r"^impl<'a> From<Key<'a>> for Vec<u8>"), st.item(r'^fn append_key'), ex, rb, gt]
+
+
+RB_CUTS = ['RocksDB -> sorted array of <= 3 byte-level rows (ordered reverse iteration from a seek key, point lookups of stored transactions), write batch -> ordered op log',
+           'packed types -> plain structs (scripts: 1-byte code hash, 1-byte hash type, <= 2 bytes of args; <= 1 input per transaction; hashes 1-byte identifiers)',
+           'std iterator adaptors -> loop-free pipeline with the same lazy semantics (unit cells)', '.concat() -> .mconcat(); .to_be_bytes().to_vec() -> .to_be_bytes() (textual)',
+           'get_filter_scripts / get_min_filtered_block_number -> model accessors']
+
+
 def obligations():
     c12 = {o.ob_id: o for o in C12.obligations()}
     c10 = {o.ob_id: o for o in C10.obligations()}
@@ -39,6 +56,15 @@ def obligations():
                  'last-N in 1..3, <=3 remembered headers, arbitrary 64-bit numbers / difficulties; sample_blocks replaced by its contract', timeout=1200,
                  mem_gb=10, min_covers=2, weight=3, cuts=['sampling::sample_blocks -> contract stub (decided in unit sampling)', 'Storage -> model']),
         o44,
+        KModelOb('O4.2-rollback', 'rollback', 'rollback_any', 'Storage::rollback_to_block(to) + get_transaction (real text, real key encoding) from an ARBITRARY sorted set of history rows: exactly the '
+                 'history rows of scripts recorded at or above the fork point, in blocks at or above it, are deleted; the live cells they created are deleted; the cells they spent are restored '
+                 '(right creating block / tx index / output index -> creating transaction); a cell created AND spent above the fork point ends up deleted; those scripts are re-recorded at the '
+                 'fork point; MIN_FILTERED_NUMBER is rewound to fork point - 1 iff it lies above; nothing else is written; one atomic batch', ex_rollback,
+                 '<= 3 rows of arbitrary key space / script / position, <= 2 registered scripts, 2 stored transactions, arbitrary fork point', cuts=RB_CUTS, timeout=2400, mem_gb=16,
+                 min_covers=2, weight=8, field_sensitivity=True),
+        KModelOb('O4.2-rollback-prefix', 'rollback', 'rollback_prefix_related', 'as O4.2-rollback with two registered scripts of which one continues the other (same code hash / hash type, args extended by one byte): '
+                 'the rows of the longer script are never parsed as rows of the shorter one', ex_rollback,
+                 '<= 3 rows, 2 prefix-related scripts', cuts=RB_CUTS, timeout=2400, mem_gb=16, min_covers=1, weight=8, field_sensitivity=True),
         KModelOb('O4.5-filter-cache-dropped', 'ups', 'update_prove_state_clears_cache', 'Peers::update_prove_state (real text, over the real PeerState text): a prove state that carries reorg '
                  'headers drops the peer\'s cached latest block filter hashes (they belong to the abandoned branch and would make the new chain\'s hashes be ignored); '
                  'without reorg headers the cache is kept; other peers untouched', ex_ups, 'arbitrary peer state, <=2 reorg headers, 2 peers', timeout=1200, mem_gb=10,
